@@ -43,6 +43,8 @@ CONSTANTS MinBodies, MaxBodies,
           SitePos, SiteRots,
           Masses, Inertias, IPoss, Arms, Stiffs, Refs, Damps, GCs, TCoefs,
           Qs, Vs, As,
+          QScales,     \* ball joints: factor <<num, den>> by which the quaternion stored in qpos is scaled (non-unit quaternions
+                       \* are accepted input; kinematics do not depend on the factor)
           Gravs,       \* gravity vectors
           DisSets,     \* sets of disabled features, subsets of {"spring", "damper", "gravity"}
           TenK, TenRanges, TenDamps, TenArms,
@@ -50,6 +52,8 @@ CONSTANTS MinBodies, MaxBodies,
           SpPairs,     \* spatial tendon <<b1, b2>>: straight segment between the sites of two bodies (0 = world site,
                        \* at the origin); <<0, 0>> = none.  It exists only where its length is a positive integer.
           SpArms,      \* its armature
+          Sleeps,      \* subset of BOOLEAN: TRUE = sleeping enabled (mjENBL_SLEEP); the last kinematic tree with dofs is then at
+                       \* rest in its reference pose and initialised asleep (policy "init"), the other trees never sleep
           StiffPolys, DampPolys,        \* joints: higher-order coefficients <<b, c>> of the stiffness / damping polynomials
           TenKPolys, TenDPolys,         \* fixed tendon: the same
           SpStiffs, SpRanges, SpDamps,  \* spatial tendon: stiffness <<a, b, c>>, spring dead band <<lo, hi>>, damping <<a, b, c>>
@@ -113,7 +117,8 @@ VARIABLES stage,  \* "A" | "B" | "C" | "kin" | "fd" | "vel" | "mass" | "dyn" | "
 vars == <<stage, B, part, glob, tree, kin, fd, vel, mass, dyn, pas, en, ev>>
 
 n == Len(B)
-HasJ(j) == B[j].jt # "none"
+HasJ(j) == B[j].jt \in {"slide", "hinge"}            \* carries ONE dof.  A "ball" joint (orientation = q quarter turns about its
+                                                      \* axis, any stored quaternion scale) takes part in the kinematics only
 IsS(j)  == B[j].jt = "slide"
 IsH(j)  == B[j].jt = "hinge"
 RECURSIVE AncOf(_, _)
@@ -153,7 +158,7 @@ PickA(par, jt, ax, pos, rot, janc, spos, srot) ==
 \* a fixed tendon spans joints of one type only (its length then has one unit)
 TenTypeOK(jt, tc) == tc # 0 => \A j \in 1..n : B[j].tc # 0 => B[j].jt = jt
 PickB(m, inr, ipos, arm, k, kp, qref, damp, dp, gc, tc) ==
-  LET nj == part.jt = "none"
+  LET nj == part.jt \notin {"slide", "hinge"}
       tcOK == ~nj /\ TenTypeOK(part.jt, tc) IN
   /\ (~Rand /\ nj) => (arm = Canon(Arms) /\ k = Canon(Stiffs) /\ qref = Canon(Refs) /\ damp = Canon(Damps) /\ tc = Canon(TCoefs)
                         /\ kp = Canon(StiffPolys) /\ dp = Canon(DampPolys))
@@ -166,10 +171,14 @@ PickB(m, inr, ipos, arm, k, kp, qref, damp, dp, gc, tc) ==
   /\ stage' = "C"
   /\ UNCHANGED <<B, glob, tree, kin, fd, vel, mass, dyn, pas, en, ev>>
 
-PickC(q, v, a) ==
-  LET nj == part.jt = "none" IN
-  /\ (~Rand /\ nj) => (q = Canon(Qs) /\ v = Canon(Vs) /\ a = Canon(As))
-  /\ B' = Append(B, part @@ [q |-> IF nj THEN 0 ELSE q, v |-> IF nj THEN 0 ELSE v, a |-> IF nj THEN 0 ELSE a])
+PickC(q, v, a, qs) ==
+  LET nj == part.jt = "none"
+      bl == part.jt = "ball" IN
+  /\ (~Rand /\ nj) => q = Canon(Qs)
+  /\ (~Rand /\ (nj \/ bl)) => (v = Canon(Vs) /\ a = Canon(As))
+  /\ (~Rand /\ ~bl) => qs = Canon(QScales)
+  /\ B' = Append(B, part @@ [q |-> IF nj THEN 0 ELSE q, v |-> IF nj \/ bl THEN 0 ELSE v, a |-> IF nj \/ bl THEN 0 ELSE a,
+                             qs |-> IF bl THEN qs ELSE <<1, 1>>])
   /\ part' = << >>
   /\ stage' = "A"
   /\ UNCHANGED <<glob, tree, kin, fd, vel, mass, dyn, pas, en, ev>>
@@ -177,9 +186,20 @@ PickC(q, v, a) ==
 HasTendon == \E j \in 1..n : B[j].tc # 0
 NoSp == <<0, 0>>
 SpValid(sp) == sp = NoSp \/ (sp[1] # sp[2] /\ sp[1] <= n /\ sp[2] <= n)
-PickG(g, dis, tk, tkp, tr, td, tdp, ta, tz, sp0, sa, ssk, ssr, ssd) ==
-  LET ht == HasTendon
-      sp == IF Rand /\ (~SpValid(sp0) \/ sa = 0) THEN NoSp ELSE sp0 IN
+\* roots of the kinematic trees, in order; the bodies of the last tree
+\* (a tree starts at the first movable body: a body with a joint none of whose proper ancestors has one)
+RootsOf(bs) == SelectSeq([i \in 1..Len(bs) |-> i],
+                         LAMBDA r : bs[r].jt # "none" /\ \A k \in AncOf(bs, r) \ {r} : bs[k].jt = "none")
+LastTree(bs) == LET rs == RootsOf(bs) IN {b \in 1..Len(bs) : rs[Len(rs)] \in AncOf(bs, b)}
+\* sleeping applies to models with at least two trees and no tendon
+SleepOK(bs, sp) == Len(RootsOf(bs)) >= 2 /\ sp = NoSp        \* (MuJoCo restricts tendons across trees when sleeping is enabled)
+PickG(g, dis, tk, tkp, tr, td, tdp, ta, tz, sp0, sa, ssk, ssr, ssd, sl0) ==
+  LET sp == IF Rand /\ (~SpValid(sp0) \/ sa = 0) THEN NoSp ELSE sp0
+      sl == sl0 /\ SleepOK(B, sp)
+      \* the sleeping tree rests in its reference pose; no fixed tendon
+      Bs == IF sl THEN [b \in 1..n |-> IF b \in LastTree(B) THEN [B[b] EXCEPT !.q = 0, !.v = 0, !.a = 0, !.tc = 0]
+                                       ELSE [B[b] EXCEPT !.tc = 0]] ELSE B
+      ht == \E j \in 1..n : Bs[j].tc # 0 IN
   /\ n >= MinBodies
   /\ (~Rand /\ ~ht) => (tk = Canon(TenK) /\ td = Canon(TenDamps) /\ ta = Canon(TenArms) /\ tr = Canon(TenRanges) /\ tz = Canon(TenZero)
                          /\ tkp = Canon(TenKPolys) /\ tdp = Canon(TenDPolys))
@@ -188,7 +208,9 @@ PickG(g, dis, tk, tkp, tr, td, tdp, ta, tz, sp0, sa, ssk, ssr, ssd) ==
   /\ tr[1] <= tr[2]
   /\ SpValid(sp)
   /\ ~Rand => ((sp = NoSp) <=> (sa = 0))
-  /\ glob' = [g |-> g, dis |-> dis, tk |-> IF ht THEN tk ELSE 0, trange |-> IF ht THEN tr ELSE <<0, 0>>,
+  /\ (~Rand /\ sl0) => sl
+  /\ B' = Bs
+  /\ glob' = [g |-> g, dis |-> dis, sleep |-> sl, tk |-> IF ht THEN tk ELSE 0, trange |-> IF ht THEN tr ELSE <<0, 0>>,
               tdamp |-> IF ht THEN td ELSE 0, tarm |-> IF ht THEN ta ELSE 0, tz |-> ht /\ tz,
               tkp |-> IF ht THEN tkp ELSE <<0, 0>>, tdp |-> IF ht THEN tdp ELSE <<0, 0>>,
               sp |-> sp, sarm |-> IF sp = NoSp THEN 0 ELSE sa,
@@ -196,7 +218,7 @@ PickG(g, dis, tk, tkp, tr, td, tdp, ta, tz, sp0, sa, ssk, ssr, ssd) ==
               ssd |-> IF sp = NoSp THEN <<0, 0, 0>> ELSE ssd]
   /\ tree' = [anc |-> [b \in 1..n |-> AncOf(B, b)], dofs |-> SelectSeq([i \in 1..n |-> i], HasJ)]
   /\ stage' = "kin"
-  /\ UNCHANGED <<B, part, kin, fd, vel, mass, dyn, pas, en, ev>>
+  /\ UNCHANGED <<part, kin, fd, vel, mass, dyn, pas, en, ev>>
 
 \* ------------------------------------------------------------------------------------------------
 \* Kin : frames.  hinge angle q = number of quarter turns, slide displacement q = integer
@@ -208,9 +230,9 @@ BodyKin(b, qk, prev) ==
       R0   == MulRot(pR, b.rot[1], b.rot[2])
       zw   == MV(R0, AxisVec(b.ax))                                    \* joint axis, world
       anc  == VAdd(p0, MV(R0, b.janc))                                 \* joint anchor, world
-      R    == IF b.jt = "hinge" THEN MulRot(R0, b.ax, qk) ELSE R0
+      R    == IF b.jt \in {"hinge", "ball"} THEN MulRot(R0, b.ax, qk) ELSE R0
       p    == IF b.jt = "slide" THEN VAdd(p0, VScl(qk, zw))
-              ELSE IF b.jt = "hinge" THEN VSub(anc, MV(R, b.janc)) ELSE p0
+              ELSE IF b.jt \in {"hinge", "ball"} THEN VSub(anc, MV(R, b.janc)) ELSE p0
   IN [p |-> p, R |-> R, zw |-> zw, anc |-> anc,
       c  |-> VAdd(p, MV(R, b.ipos)),                                   \* centre of mass (xipos)
       sp |-> VAdd(p, MV(R, b.spos)),                                   \* site position
@@ -523,6 +545,7 @@ PairRow(pr) == [b1 |-> pr[1], b2 |-> pr[2],
                 jacr |-> [d \in 1..nv |-> VSub(JRx(pr[1], Dofs[d]), JRx(pr[2], Dofs[d]))]]
 EvKin == [op |-> "model", n |-> n, nv |-> nv, dofs |-> Dofs, bodies |-> B, glob |-> glob, level |-> Level,
           hinge |-> [d \in 1..nv |-> IsH(Dofs[d])],
+          hasball |-> \E b \in 1..n : B[b].jt = "ball",
           \* an armature-bearing tendon couples two dofs on different branches (M then has entries off the tree pattern)
           xten |-> \/ (glob.tarm # 0 /\ \E i, j \in 1..n : B[i].tc # 0 /\ B[j].tc # 0 /\ i \notin Anc(j) /\ j \notin Anc(i))
                    \/ (Level >= 2 /\ glob.sarm # 0 /\ \E i, j \in 1..n : mass.spn[i] # 0 /\ mass.spn[j] # 0
@@ -544,6 +567,14 @@ EvDyn == [vel |-> vel,
           bias |-> ByDof(dyn.bias), rnea |-> ByDof(dyn.tauK),
           inv |-> ByDof(VecAddN(MatVecN(mass.M, AOf), dyn.bias)),
           kin2 |-> dyn.kin2,
+          \* sleeping: policy per body (3 = never, 5 = initialised asleep, 0 = not a tree root), asleep flag per tree, and whether
+          \* the sleeping tree has an off-diagonal inertia entry.  M and its factorisation identities (L'DL = M,
+          \* solveM(mulM(v)) = v, qLDiagInv * D = 1) hold for ALL dofs, awake or asleep.
+          slp |-> [on |-> glob.sleep,
+                   pol |-> [b \in 1..n |-> IF ~glob.sleep THEN 0 ELSE LET rs == RootsOf(B) IN
+                                            IF b = rs[Len(rs)] THEN 5 ELSE IF \E k \in 1..Len(rs) : rs[k] = b THEN 3 ELSE 0],
+                   trees |-> [k \in 1..Len(RootsOf(B)) |-> IF glob.sleep /\ k = Len(RootsOf(B)) THEN 1 ELSE 0],
+                   coupled |-> glob.sleep /\ \E i, j \in LastTree(B) : i # j /\ mass.M[i][j] # 0],
           \* spatial tendon (spL = 0: absent).  Msp, Mvsp, kin2sp over L^2;  biassp, invsp over L^4
           spL |-> mass.spL, spn |-> ByDof(mass.spn), Msp |-> MatByDof(mass.Msp),
           Mvsp |-> ByDof(MatVecN(mass.Msp, VOf)), kin2sp |-> dyn.kin2sp,
@@ -567,12 +598,12 @@ DoPickB == stage = "B" /\ \E m \in Pick(Masses), inr \in Pick(Inertias), ipos \i
                               kp \in Pick(StiffPolys), qref \in Pick(Refs), damp \in Pick(Damps), dp \in Pick(DampPolys),
                               gc \in Pick(GCs), tc \in Pick(TCoefs) :
                               PickB(m, inr, ipos, arm, k, kp, qref, damp, dp, gc, tc)
-DoPickC == stage = "C" /\ \E q \in Pick(Qs), v \in Pick(Vs), a \in Pick(As) : PickC(q, v, a)
+DoPickC == stage = "C" /\ \E q \in Pick(Qs), v \in Pick(Vs), a \in Pick(As), qs \in Pick(QScales) : PickC(q, v, a, qs)
 DoPickG == stage = "A" /\ \E g \in Pick(Gravs), dis \in Pick(DisSets), tk \in Pick(TenK), tr \in Pick(TenRanges),
                               td \in Pick(TenDamps), ta \in Pick(TenArms), tz \in Pick(TenZero), sp \in Pick(SpPairs),
                               sa \in Pick(SpArms), tkp \in Pick(TenKPolys), tdp \in Pick(TenDPolys), ssk \in Pick(SpStiffs),
-                              ssr \in Pick(SpRanges), ssd \in Pick(SpDamps) :
-                              PickG(g, dis, tk, tkp, tr, td, tdp, ta, tz, sp, sa, ssk, ssr, ssd)
+                              ssr \in Pick(SpRanges), ssd \in Pick(SpDamps), sl \in Pick(Sleeps) :
+                              PickG(g, dis, tk, tkp, tr, td, tdp, ta, tz, sp, sa, ssk, ssr, ssd, sl)
 DoKin     == stage = "kin"  /\ Kin
 DoFd      == stage = "fd"   /\ Fd
 DoVel     == stage = "vel"  /\ Vel
@@ -724,6 +755,9 @@ NegDamperPlainPoly == L3 => \A i \in DofB : B[i].tc = 0 =>
 
 \* ---- constants of the configurations (cfg files cannot hold tuples) ----------------------------------
 AllJ == {"none", "slide", "hinge"}
+AllJB == {"none", "slide", "hinge", "ball"}
+QS1 == {<<1, 1>>}
+QS3 == {<<1, 1>>, <<2, 1>>, <<1, 2>>}
 Ax3 == {1, -2, 3}
 Ax2 == {1, -2}
 MovJ == {"slide", "hinge"}
@@ -737,6 +771,8 @@ NoSpS == {<<0, 0>>}
 P00 == {<<0, 0>>}
 T000 == {<<0, 0, 0>>}
 NoTz == {FALSE}
+D_Ax1 == {1}
+D_V02 == {0, 2}
 BothTz == {FALSE, TRUE}
 OnlyTz == {TRUE}
 Rng0 == {<<0, 0>>}
